@@ -15,7 +15,7 @@ PRIMITIVE_KINDS = ("sphere", "capsule", "box", "ellipsoid", "cylinder")
 FNS_ALL = ["jolt_distance", "jolt_intersection", "original_distance", "libccd_intersection", "nesterov_distance",
            "nesterov_distance_acc", "nesterov_intersection", "mpr_intersection", "mpr_penetration", "epa"]
 FNS_PRIM = ["primitives_distance", "primitives_intersection", "primitives_distance_acc"]
-FNS_MORE = ["jolt_distance_noclip", "jolt_iterations", "original_iterations", "nesterov_iterations"]
+FNS_MORE = ["jolt_distance_noclip", "jolt_iterations", "original_iterations", "nesterov_iterations", "epa_big"]
 BOOL_FNS = ("jolt_intersection", "libccd_intersection", "nesterov_intersection", "primitives_intersection",
             "mpr_intersection")
 
@@ -539,7 +539,7 @@ def judge_c19_narrow(prop, k, op, o, ea, eb, budget=1000):
     if st == "linebudget":
         return _v(prop, "K.lineclock", k, "%s exceeded the interpreted line budget (%s lines)" % (desc, o.get("lines")))
     if st == "exc":
-        allowed = (fn == "epa" and o.get("exc") == "AssertionError" and o.get("where", "").startswith("epa.py")
+        allowed = (fn in ("epa", "epa_big") and o.get("exc") == "AssertionError" and o.get("where", "").startswith("epa.py")
                    and not (_is_polytope(ea) and _is_polytope(eb)))
         if allowed:
             return None
@@ -571,7 +571,7 @@ def _cmp_narrow(fn, r, tw, L):
     """Live vs fresh twin for one narrow-phase result; returns a message or None."""
     if tw is None or "exc" in tw or "budget" in tw:
         return None  # the twin itself failed: nothing to compare with (C19's business)
-    tol = (1e-5 if fn in ("jolt_distance", "jolt_distance_noclip", "epa") else 1e-3) * L
+    tol = (1e-5 if fn in ("jolt_distance", "jolt_distance_noclip", "epa", "epa_big") else 1e-3) * L
     if "d" in r and "d" in tw:
         if r["d"] == MAX_FLOAT or tw["d"] == MAX_FLOAT:
             if r["d"] != tw["d"] and min(r["d"], tw["d"]) < 300.0:
